@@ -179,6 +179,18 @@ def run(ctx, ck) -> None:
                            'global cache, so the first call under jit leaks a tracer into later eager or differently-traced calls (and frozen modules cannot hold the cache)', instance=f'{cls.name}.{name} cached', semantic=True)  # the presence of the decorator decides
     ck.floor('J3', nmeth, 100, 'operator methods scanned for memoisation')
 
+    # J8: the captured configuration is static metadata of the lazy inverse: a jit that takes the operator as an argument keys
+    # its cache on the equality of that metadata, so every setting the solve depends on must take part in it (shared with C19.K5)
+    from . import c19 as _c19
+
+    _sub19 = type(ck)(ck.pid)
+    _c19.run(ctx, _sub19)
+    for _o in _sub19.obs:
+        if _o.rule.endswith('K5') and ('compared' in _o.construct or _o.construct.endswith('[eq]')):
+            _o.rule = f'{ck.pid}.J8'
+            ck.obs.append(_o)
+    ck.floor('J8', sum(1 for o in ck.obs if o.rule.endswith('J8')), 4, 'settings of the captured configuration')
+
     # J2b: non-static fields annotated with a Python scalar type must not receive NumPy/JAX values
     for cls in table.operators():
         for f in cls.own_fields:
